@@ -407,6 +407,7 @@ func cmdCheck(args []string) int {
 		if len(res.Trace) > 0 {
 			// record the schedule that was taken: the replay follows it choice by choice
 			small.Schedule = res.Trace
+			small = check.MinimizeSchedule(s, f.Seed, small, sig, 15*time.Second)
 			res = s.Exec(f.Seed, small)
 		}
 		var hit *check.Replay
